@@ -4,6 +4,8 @@
   C09  thirteen linked hash maps / sets   -> /verif/harness/C09/<type>.go
   C12  four plain (unordered) maps / sets -> /verif/harness/C12/<type>.go
   shared helpers                          -> /verif/harness/{C09,C12}/zz_model.go
+  C10  lock discipline of all 17 types    -> /verif/harness/C10/<type>.go (+ zz_c10.go); the hand-written
+       /verif/harness/C10/linkedlist.go and queue.go are not touched
 
 Per type two harness functions are emitted:
   ZZ_<P>_<Type>_Pool      concrete keys drawn (zzvf.Choose) from a small pool containing keys that
@@ -1115,6 +1117,297 @@ func ZZ_%(P)s_%(N)s_Symbolic() {
         return '\n'.join(head) + body + '\n'
 
 
+# ----------------------------------------------------------------------------------------------
+# C10: lock discipline (self-deadlock of every public method, data races between point operations)
+# ----------------------------------------------------------------------------------------------
+
+C10_MODEL_GO = """//vf:dir util/hmap
+//vf:race
+package hmap
+
+// GENERATED by /verif/harness/gen_hmap.py -- do not edit; helpers shared by the C10 harness files.
+
+// zzLK: harness LinkedKey (hash independent of the identity, so chains exist in the small tables)
+type zzLK struct {
+	h  uint
+	id int32
+}
+
+func (k *zzLK) Hash() uint { return k.h }
+func (k *zzLK) Equals(o LinkedKey) bool {
+	x, ok := o.(*zzLK)
+	if !ok {
+		return false
+	}
+	return x.id == k.id
+}
+"""
+
+# concrete keys: K0, K1 (collides with K0 in the 3-slot table), K2 make up the pre-state, KN is new
+C10_KEYS = {
+    'i32': ['int32(0)', 'int32(3)', 'int32(-1)', 'int32(math.MinInt32)'],
+    'i64': ['int64(0)', 'int64(3)', 'int64(-1)', 'int64(math.MinInt64)'],
+    'str': ['"ki"', '"ld"', '"a"', '"b"'],
+    'strjh': ['"Aa"', '"BB"', '"a"', '"b"'],
+    'lk': ['&zzLK{0, 0}', '&zzLK{0, 1}', '&zzLK{3, 2}', '&zzLK{6, 3}'],
+}
+C10_VAL = {'i32': 'int32(7)', 'i64': 'int64(7)', 'f32': 'float32(7)', 'box': 'int64(7)', 'none': None}
+
+# operations eligible for RacePair: the point operations + size named by the property
+C10_PAIR = ['put', 'putupdate', 'putfirst', 'putlast', 'add', 'addfirst', 'addlast', 'addnoover', 'addifexist', 'unipoint',
+            'get', 'getlru', 'containskey', 'haskey', 'containsvalue', 'remove', 'removefirst', 'removelast', 'clear',
+            'size', 'isempty', 'isfull']
+# every other public method: self-deadlock obligation only
+C10_GUARD = ['setmax', 'sort', 'keyarray', 'valuearray', 'keys', 'values', 'entries', 'tostring', 'toformatstring',
+             'getfirstkey', 'getlastkey', 'getfirstvalue', 'getlastvalue', 'getkeyset', 'tokeyset', 'valueiterator',
+             'tobytes', 'toobject', 'setnullvalue', 'putall']
+
+
+def c10_ops(t):
+    """(pair ops, guard-only ops) available for the type"""
+    have = set(t['ops'])
+    N = t['name']
+    isset = t['v'] == 'none'
+    linked = t['prop'] == 'C09'
+    pair = []
+    for o in C10_PAIR:
+        if o == 'putupdate':
+            pair.append(o)
+        elif o in ('size',):
+            pair.append(o)
+        elif o == 'isempty':
+            if t['isempty']:
+                pair.append(o)
+        elif o == 'isfull':
+            if t['isfull']:
+                pair.append(o)
+        elif o in have:
+            pair.append(o)
+    guard = []
+    for o in C10_GUARD:
+        if o == 'sort':
+            if 'sortasc' in have:
+                guard.append(o)
+        elif o == 'keyarray':
+            if t['keyarray']:
+                guard.append(o)
+        elif o == 'valuearray':
+            if t['valuearray']:
+                guard.append(o)
+        elif o == 'keys':
+            guard.append(o)
+        elif o == 'values':
+            if not isset:
+                guard.append(o)
+        elif o == 'entries':
+            if t['entries']:
+                guard.append(o)
+        elif o in ('getfirstkey', 'getlastkey'):
+            if linked:
+                guard.append(o)
+        elif o in ('getfirstvalue', 'getlastvalue'):
+            if linked and not isset:
+                guard.append(o)
+        elif o == 'toobject':
+            if 'tobytes' in have:
+                guard.append(o)
+        elif o in have:
+            guard.append(o)
+    return pair, guard
+
+
+def gen_c10(t):
+    N = t['name']
+    kk = 'strjh' if t['pool'] is JHPOOL else t['k']
+    K0, K1, K2, KN = C10_KEYS[kk]
+    V = C10_VAL[t['v']]
+    isset = t['v'] == 'none'
+    pair, guard = c10_ops(t)
+    ops = pair + guard
+    out = []
+    w = out.append
+
+    def kv(k):
+        return k if isset else '%s, %s' % (k, V)
+
+    # constructor
+    if t['ctor'] == 'caplf':
+        w('func zzNew10_%s() *%s { return New%s(3, 1.0) }' % (N, N, N))
+    else:
+        w("""func zzNew10_%(N)s() *%(N)s {
+	m := New%(N)s() // real constructor (capacity 101) shrunk to 3 slots / threshold 3, so that chains exist
+	m.table = make([]*%(tab)s, 3)
+	m.loadFactor = 1.0
+	m.threshold = 3
+	return m
+}""" % dict(N=N, tab=t['tab']))
+    w('')
+    w("""// zzPre10_%(N)s: pre-state with n = 0, 1 or 3 entries (two of them in one chain); the next new key grows the table
+func zzPre10_%(N)s(n int) *%(N)s {
+	m := zzNew10_%(N)s()""" % dict(N=N))
+    if 'setmax' in t['ops']:
+        w('	m.SetMax(8) // IsFull then reads the element count')
+    w('	if n >= 1 {')
+    w('		m.Put(%s)' % kv(K0))
+    w('	}')
+    w('	if n >= 3 {')
+    w('		m.Put(%s)' % kv(K1))
+    w('		m.Put(%s)' % kv(K2))
+    w('	}')
+    w('	return m')
+    w('}')
+    w('')
+    w('// the first %d operations (point operations and size) are paired by RacePair; all %d are checked for self-deadlock' % (len(pair), len(ops)))
+    w('var zzOps10_%s = []string{%s}' % (N, ', '.join('"%s"' % o for o in ops)))
+    w('')
+    w('// zzOp10_%s: the operation as a closure on m; concrete arguments (the lockset does not depend on values);' % N)
+    w('// the closures write nothing they capture')
+    w('func zzOp10_%(N)s(m *%(N)s, op string) func() {' % dict(N=N))
+    w('	switch op {')
+    contains = t['contains']
+    ktype = KEY[t['k']]['arg']
+    nxtk = t['keys'][0]
+    keysmeth = t['keys'][2] if len(t['keys']) > 2 else 'Keys'
+
+    def case(o, body):
+        w('	case "%s":' % o)
+        w('		return func() { %s }' % body)
+
+    def casem(o, lines):
+        w('	case "%s":' % o)
+        w('		return func() {')
+        for l in lines:
+            w('			' + l)
+        w('		}')
+
+    for o in ops:
+        if o == 'put':
+            case(o, 'm.Put(%s)' % kv(KN))
+        elif o == 'putupdate':
+            case(o, 'm.Put(%s)' % kv(K0))
+        elif o == 'putfirst':
+            case(o, 'm.PutFirst(%s)' % kv(K2))
+        elif o == 'putlast':
+            case(o, 'm.PutLast(%s)' % kv(K0))
+        elif o == 'add':
+            case(o, 'm.Add(%s)' % kv(K0))
+        elif o == 'addfirst':
+            case(o, 'm.AddFirst(%s)' % kv(KN))
+        elif o == 'addlast':
+            case(o, 'm.AddLast(%s)' % kv(K1))
+        elif o == 'addnoover':
+            case(o, 'm.AddNoOver(%s)' % kv(KN))
+        elif o == 'addifexist':
+            case(o, 'm.AddIfExist(%s)' % kv(K0))
+        elif o == 'unipoint':
+            case(o, 'm.Unipoint(%s)' % KN)
+        elif o == 'get':
+            case(o, 'm.Get(%s)' % K0)
+        elif o == 'getlru':
+            case(o, 'm.GetLRU(%s)' % K0)
+        elif o == 'containskey':
+            case(o, 'm.%s(%s)' % (contains, K1))
+        elif o == 'haskey':
+            case(o, 'm.HasKey(%s)' % K1)
+        elif o == 'containsvalue':
+            case(o, 'm.ContainsValue(%s)' % V)
+        elif o == 'remove':
+            case(o, 'm.Remove(%s)' % K0)
+        elif o == 'removefirst':
+            case(o, 'm.RemoveFirst()')
+        elif o == 'removelast':
+            case(o, 'm.RemoveLast()')
+        elif o == 'clear':
+            case(o, 'm.Clear()')
+        elif o == 'size':
+            case(o, 'm.Size()')
+        elif o == 'isempty':
+            case(o, 'm.IsEmpty()')
+        elif o == 'isfull':
+            case(o, 'm.IsFull()')
+        elif o == 'setmax':
+            case(o, 'm.SetMax(2)')
+        elif o == 'sort':
+            if t['k'] == 'lk':
+                case(o, 'm.Sort(func(a, b LinkedKey) bool { return a.(*zzLK).id < b.(*zzLK).id })')
+            else:
+                case(o, 'm.Sort(func(a, b %s) bool { return a < b })' % ktype)
+        elif o == 'keyarray':
+            case(o, 'm.%s()' % t['keyarray'])
+        elif o == 'valuearray':
+            case(o, 'm.%s()' % t['valuearray'])
+        elif o == 'keys':
+            casem(o, ['e := m.%s()' % keysmeth, 'for i := 0; e.HasMoreElements() && i < 8; i++ {', '	e.%s()' % nxtk, '}'])
+        elif o == 'values':
+            casem(o, ['e := m.Values()', 'for i := 0; e.HasMoreElements() && i < 8; i++ {', '	e.%s()' % t['values'][0], '}'])
+        elif o == 'entries':
+            casem(o, ['e := m.Entries()', 'for i := 0; e.HasMoreElements() && i < 8; i++ {', '	e.NextElement()', '}'])
+        elif o == 'valueiterator':
+            casem(o, ['if e, ok := m.ValueIterator().(Enumeration); ok {', '	for i := 0; e.HasMoreElements() && i < 8; i++ {', '		e.NextElement()', '	}', '}'])
+        elif o == 'tostring':
+            case(o, 'm.ToString()')
+        elif o == 'toformatstring':
+            case(o, 'm.ToFormatString()')
+        elif o == 'getfirstkey':
+            case(o, 'm.%s()' % t['firstlast'][0])
+        elif o == 'getlastkey':
+            case(o, 'm.%s()' % t['firstlast'][1])
+        elif o == 'getfirstvalue':
+            case(o, 'm.%s()' % t['firstlast'][2])
+        elif o == 'getlastvalue':
+            case(o, 'm.%s()' % t['firstlast'][3])
+        elif o == 'getkeyset':
+            case(o, 'm.GetKeySet()')
+        elif o == 'tokeyset':
+            case(o, 'm.ToKeySet()')
+        elif o == 'tobytes':
+            case(o, 'm.ToBytes(io.NewDataOutputX())')
+        elif o == 'toobject':
+            wv = 'o.WriteFloat(6)' if t['v'] == 'f32' else 'o.WriteDecimal(6)'
+            casem(o, ['o := io.NewDataOutputX()', 'o.WriteDecimal(1)', 'o.WriteDecimal(5)', wv, 'm.ToObject(io.NewDataInputX(o.ToByteArray()))'])
+        elif o == 'setnullvalue':
+            case(o, 'm.SetNullValue(9)')
+        elif o == 'putall':
+            if N == 'IntSet':
+                case(o, 'm.PutAll([]int32{%s, %s})' % (KN, K0))
+            else:
+                casem(o, ['o := zzNew10_%s()' % N, 'o.Put(%s)' % kv(KN), 'o.Put(%s)' % kv(K0), 'm.PutAll(o)'])
+        else:
+            raise SystemExit('C10: unknown op ' + o)
+    w('	}')
+    w('	panic("zzOp10_%s: " + op)' % N)
+    w('}')
+    w('')
+    w("""// ZZ_C10_%(N)s: lock discipline of %(N)s.
+// Pre-state: 0, 1 or 3 entries in a 3-slot table (chain of two, the next new key grows the table).
+// (1) every public method (op a) runs under the self-deadlock watchdog on its own instance;
+// (2) every unordered pair (a, b), a <= b, of the point operations + size/is-empty/is-full runs as a
+//     RacePair on one fresh shared instance: a common cell with a write and no common lock is a race.
+//vf:paths=20000 deadline=4m
+func ZZ_C10_%(N)s() {
+	n := []int{0, 1, 3}[zzvf.Choose(3)]
+	a := zzvf.Choose(len(zzOps10_%(N)s))
+	opA := zzOps10_%(N)s[a]
+	zzvf.Guard("deadlock/%(N)s/"+opA, zzOp10_%(N)s(zzPre10_%(N)s(n), opA))
+	if a < %(np)d {
+		opB := zzOps10_%(N)s[a+zzvf.Choose(%(np)d-a)]
+		m := zzPre10_%(N)s(n)
+		zzvf.RacePair("race/%(N)s/"+opA+"|"+opB, zzOp10_%(N)s(m, opA), zzOp10_%(N)s(m, opB))
+	}
+	zzvf.Reach("%(N)s")
+}""" % dict(N=N, np=len(pair)))
+    body = '\n'.join(out)
+    head = ['//vf:dir util/hmap', '//vf:race', 'package hmap', '',
+            '// GENERATED by /verif/harness/gen_hmap.py -- do not edit. Property C10, type %s.' % N, '', 'import (']
+    if 'math.' in body:
+        head += ['\t"math"', '']
+    if 'io.New' in body:
+        head.append('\t"github.com/whatap/golib/io"')
+    head += ['\t"github.com/whatap/golib/zzvf"', ')', '']
+    return '\n'.join(head) + body + '\n'
+
+
+
 def main():
     written = []
     for prop in ('C09', 'C12'):
@@ -1128,6 +1421,17 @@ def main():
         p = os.path.join(HERE, t['prop'], t['name'].lower() + '.go')
         with open(p, 'w') as f:
             f.write(Gen(t).generate())
+        written.append(p)
+    d10 = os.path.join(HERE, 'C10')
+    os.makedirs(d10, exist_ok=True)
+    p = os.path.join(d10, 'zz_c10.go')
+    with open(p, 'w') as f:
+        f.write(C10_MODEL_GO)
+    written.append(p)
+    for t in TYPES:
+        p = os.path.join(d10, t['name'].lower() + '.go')
+        with open(p, 'w') as f:
+            f.write(gen_c10(t))
         written.append(p)
     old = os.path.join(HERE, 'C09', 'intint.go')
     if os.path.exists(old) and '--keep-intint' not in sys.argv:
